@@ -5,7 +5,7 @@ PATCH="$(readlink -f "$1")"; shift
 cd /repo
 if [ -n "$(git status --porcelain --untracked-files=no)" ]; then echo "try_seed: /repo is dirty, refusing"; exit 2; fi
 if ! git apply "$PATCH" 2>/dev/null; then
-  if ! git apply -3 "$PATCH" 2>/dev/null; then echo "try_seed: patch does not apply"; git checkout -q -- . ; git reset -q; exit 3; fi
+  if ! git apply -3 "$PATCH" 2>/dev/null; then echo "try_seed: patch does not apply"; git reset -q; git checkout -q -- . ; exit 3; fi
 fi
 rc=0
 for c in "$@"; do
